@@ -70,6 +70,9 @@ func genRound3(c *Ctx, which ...string) {
 	if on("response-buffer") {
 		genResponseBufferLocal(c)
 	}
+	if on("ptr-ptr") {
+		genPtrPtrUnmarshalsWhenPresent(c)
+	}
 }
 
 // (1) `__typename` answers the object's own name: the constant of the object function it stands in.
@@ -975,5 +978,64 @@ func genResponseBufferLocal(c *Ctx) {
 				}
 			}
 		}
+	}
+}
+
+// (17) a pointer-to-pointer input unmarshals its content exactly when there is content.
+func genPtrPtrUnmarshalsWhenPresent(c *Ctx) {
+	c.R.Rule("ptr-ptr-unmarshals-when-present", "generated **T unmarshalers: the inner unmarshal call on the raw value v stands on the edge v != nil (a provided value is unmarshalled, an explicit null is not)", 1)
+	n := 0
+	for _, g := range c.Gen {
+		for _, fn := range c.genFuncs(g) {
+			if fn.Parent() != nil || !strings.HasPrefix(fn.Name(), "unmarshal") || fn.Signature.Results().Len() != 2 {
+				continue
+			}
+			pp, ok := fn.Signature.Results().At(0).Type().Underlying().(*types.Pointer)
+			if !ok {
+				continue
+			}
+			if _, ok := pp.Elem().Underlying().(*types.Pointer); !ok {
+				continue
+			}
+			var v *ssa.Parameter
+			for _, p := range fn.Params {
+				if _, isI := p.Type().Underlying().(*types.Interface); isI && p.Name() == "v" {
+					v = p
+				}
+			}
+			if v == nil {
+				continue
+			}
+			for _, call := range an.CallsIn(fn, func(_ ssa.CallInstruction, ci an.CalleeInfo) bool {
+				return ci.Static != nil && ci.Static.Pkg == g.SSA && strings.HasPrefix(ci.Static.Name(), "unmarshal")
+			}) {
+				uses := false
+				for _, a := range call.Common().Args {
+					if an.Strip(a) == ssa.Value(v) {
+						uses = true
+					}
+				}
+				if !uses {
+					continue
+				}
+				n++
+				present, absent := false, false
+				for _, f := range an.Facts(call) {
+					if (an.Strip(f.X) == ssa.Value(v) && an.IsNilConst(f.Y)) || (an.Strip(f.Y) == ssa.Value(v) && an.IsNilConst(f.X)) {
+						if f.Op == token.NEQ {
+							present = true
+						}
+						if f.Op == token.EQL {
+							absent = true
+						}
+					}
+				}
+				c.R.Check(present && !absent, "gen:"+g.Name+"/"+fn.Name()+"/inner", c.ipos(call), "unmarshals the content only when v != nil", "the inner unmarshaler runs when the raw value is nil and is skipped when a value was provided: every provided value of this **T input silently becomes an explicit null")
+			}
+		}
+	}
+	if n == 0 {
+		c.R.Note("ptr-ptr-unmarshals-when-present/none", "-", "no **T unmarshaler in the materialised configurations")
+		c.R.SetFloor(0)
 	}
 }
